@@ -386,6 +386,12 @@ impl Facts {
             });
         }
     }
+
+    /// Verification hook: number of undo frames currently open (read-only).
+    #[cfg(rre_verif)]
+    pub fn verif_undo_depth(&self) -> usize {
+        self.undo_frames.read().unwrap().len()
+    }
 }
 
 /// Trait for objects that can be used as facts
